@@ -2,9 +2,10 @@
 from __future__ import annotations
 
 import ast
-from typing import Dict, List, Optional, Tuple
+from typing import Dict, List, Optional, Set, Tuple
 
-from ..cfg import CFG, EXIT
+from ..absint import eval_test
+from ..cfg import CFG, EXIT, symbolic_block_paths
 from ..exprnorm import norm_test
 from ..report import Run
 from ..src import AnalysisError, FuncInfo, Program, call_name, stmt_key, walk_no_nested
@@ -364,37 +365,25 @@ def _accumulation(run: Run, f: FuncInfo, cfg: CFG, cand: ast.For, pat: ast.For, 
     if not reset:
         run.violation(R, "VariantMatcher.request_loop", "all-flag-not-reset",
                       f"`{all_name}` is not reset to True for every pattern", f.loc)
-    good_upd = False
-    cur_name = None
-    for x in ast.walk(par):
-        if isinstance(x, ast.Assign) and isinstance(x.value, ast.Call) and call_name(
-                x.value) == "_ident_response_matches" and isinstance(x.targets[0], ast.Name):
-            cur_name = x.targets[0].id
-    for x in upd:
-        v = x.value
-        if isinstance(v, ast.BoolOp) and isinstance(v.op, ast.And) and {ast.unparse(a) for a in
-                                                                        v.values} == {all_name,
-                                                                                      cur_name}:
-            good_upd = True
-        if ast.unparse(v) == "False":
-            cs = cfg.branch_conditions(cfg.node_of(x))
-            if any(ast.unparse(t) == cur_name and not pol for t, pol in cs) or any(
-                    ast.unparse(t) == f"not {cur_name}" and pol for t, pol in cs):
-                good_upd = True
-    # third form: `all = <this parameter's result>` followed at once by `if not all: break` --
-    # the flag is still True whenever the assignment runs, so it remains the conjunction
-    for x in upd:
-        if isinstance(x.value, ast.Call) and call_name(x.value) == "_ident_response_matches":
-            xn = cfg.node_of(x)
-            for b in ast.walk(par):
-                if isinstance(b, ast.Break) and owner(b) is par:
-                    bn = cfg.node_of(b)
-                    pcs = cfg.branch_conditions(bn)
-                    if cfg.dominates(xn, bn) and any(
-                            norm_test(t, negate=not pol) == norm_test(
-                                ast.parse(f"not {all_name}", mode="eval").body)
-                            for t, pol in pcs):
-                        good_upd = True
+    # one iteration of the parameter loop, symbolically: with the flag still True, the flag
+    # afterwards is exactly this parameter's result (however the update / early exit is written)
+    cur_name = "the parameter's result"
+    it_paths = symbolic_block_paths(par.body)
+
+    def flag_after(cur: bool) -> Set[object]:
+        def leaf(t: ast.AST):
+            if isinstance(t, ast.Call) and call_name(t) == "_ident_response_matches":
+                return cur
+            return None
+        env = {all_name: True}
+        outs: Set[object] = set()
+        for p_ in it_paths:
+            if not all(eval_test(t, env, leaf) in (None, pol) for t, pol in p_.conds):
+                continue
+            v = p_.env.get(all_name)
+            outs.add(True if v is None else eval_test(v, env, leaf))
+        return outs
+    good_upd = bool(it_paths) and flag_after(True) == {True} and flag_after(False) == {False}
     if good_upd:
         run.ok(R, "request_loop", f"`{all_name}` is the conjunction of the results of all "
                "parameters of the pattern", f"{f.module.rel}:{par.lineno}")
